@@ -5,4 +5,5 @@ package jobconfigcontroller
 var verifHarnesses = map[string]func(){
 	"VerifH_C15_status": VerifH_C15_status,
 	"VerifH_C15_wakeup": VerifH_C15_wakeup,
+	"VerifH_C04_L3_recorded": VerifH_C04_L3_recorded,
 }
